@@ -11,6 +11,7 @@ mod res;
 mod routerd;
 mod rset;
 mod script;
+mod server;
 mod shm;
 mod timed;
 mod util;
@@ -31,6 +32,8 @@ fn main() {
         "codec" => codec::run(),
         "prog" => prog::run(),
         "res" => res::run(),
+        "server" => server::run(),
+        "client" => server::run_client(&args[2..]),
         "timed" => timed::run(),
         #[cfg(feature = "async")]
         "async" => asyncd::run(),
